@@ -23,6 +23,108 @@ def next_inst(F, hty):
     return F.insts.get(k)
 
 
+def tagiter_fresh(n, payload, canon=lambda x: x):
+    """n (N-form) is a freshly constructed TagIter over `payload`: the (buffer, next_tag_offset = 0) representation, or the
+    cursor representation whose slice fields all start as the whole payload"""
+    if not (isinstance(n, tuple) and n and n[0] == "aggr" and n[1][0] == "adt" and n[1][1] == "multiboot2_common::iter::TagIter"):
+        return False
+    vals = dict(zip(n[1][3], n[2]))
+    if "next_tag_offset" in vals:
+        return vals.get("next_tag_offset") == ("c", 0) and canon(vals.get("buffer")) == canon(payload)
+    slices = [v for k, v in vals.items() if not (isinstance(v, tuple) and v and v[0] == "aggr")]      # PhantomData is an aggregate
+    return len(slices) >= 1 and all(canon(v) == canon(payload) for v in slices)
+
+
+def check_next_cursor(ctx, F, hty, size_off, label, rule_prefix, inst, it_adt):
+    """the cursor representation of TagIter: `remaining` is the not yet walked rest of the buffer.
+       next(): if remaining.is_empty() {None} else { hdr = *(remaining.as_ptr() as *const H); R = round8(size_of H + hdr.payload_len());
+       (item, rest) = remaining.split_at(R); remaining = rest; Some(ref_from_slice(item).unwrap()) }
+    Same premises as the index form, with `offset` = buffer.len() - remaining.len() (never stored)."""
+    A = an.of(F, inst)
+    b = A.body
+    selfv = deref(arg(1))
+    writes = [(bb, name, val) for (bb, si, name, val) in an.writes_through(A, 1)]
+    names = {w[1] for w in writes}
+    if len(names) != 1:
+        ctx.fail(rule_prefix + "5", label + ":writes", "next() writes exactly one field (the rest of the buffer)", A.site(), "writes %s" % sorted(map(str, names)))
+        return A
+    rname = next(iter(names))
+    fr = [f for f in it_adt["fields"] if f["name"] == rname][0]
+    rest = fld(selfv, fr["i"])
+    hs = F.size_of(hty)
+    ex = CH.exits(A)
+    nones = [e for e in ex if e.kind == "None"]
+    somes = [e for e in ex if e.kind == "Some"]
+    g = len(nones) == 1 and len(somes) == 1 and [N(f) for f in nones[0].own] == [("cmp", "Eq", ("len", rest), ("c", 0))] and len(nones[0].facts) == 1
+    ctx.check(g, rule_prefix + "4", label + ":end", "next() returns None exactly when the rest is empty (offset == buffer.len()), as its first test", A.site(), how=str(nones)[:200], why=str(ex)[:400])
+    # the header read: *(rest.as_ptr() as *const H)
+    from .. import unsafe as U
+    derefs = [s_ for s_ in U.sites_of(F, inst) if s_.kind == "rawderef"]
+    ptr = ("asptr", rest)
+    g2 = len(derefs) == 1
+    facts = A.g.facts_at(derefs[0].bb) if derefs else []
+    nonempty = any(N(f) in (("cmp", "Ne", ("len", rest), ("c", 0)), ("cmp", "Gt", ("len", rest), ("c", 0))) for f in facts)
+    hdr_a = F.adts.get(hty)
+    sidx = [f["i"] for f in hdr_a["fields"] if f["off"] == size_off and f["size"] == 4][0]
+    size_n = fld(deref(ptr), sidx)
+    ctx.check(g2 and any(x == size_n for x in _sub(N(writes[0][2]))), rule_prefix + "2", label + ":header-address",
+              "the tag header is read at the start of the rest: buffer.as_ptr() + offset (bytes)", A.site(derefs[0].bb) if derefs else A.site(),
+              how="*(rest.as_ptr() as *const H)", why="%d raw dereferences; stored value %s" % (len(derefs), G.show(writes[0][2])[:200]))
+    ctx.check(nonempty, rule_prefix + "4", label + ":assert", "the rest is non-empty where the raw header pointer is formed (offset < buffer.len())", A.site(derefs[0].bb) if derefs else A.site(),
+              how="negated emptiness test dominates the unsafe block", why="facts %s" % [G.show(f)[:80] for f in facts])
+    g5 = len(writes) == 1 and bool(somes) and b.dominates(writes[0][0], somes[0].bb) and bool(nones) and not b.dominates(writes[0][0], nones[0].bb)
+    ctx.check(g5, rule_prefix + "5", label + ":writes", "next() writes only the rest, once, on the path that yields an item; the None path writes nothing",
+              A.site(), how=str([(w[0], w[1]) for w in writes]), why=str([(w[0], w[1]) for w in writes]))
+    # step: rest' = rest[R..] with R = round8(size)
+    wv = N(writes[0][2])
+    R = wv[2] if wv[0] == "sub" and wv[1] == rest and wv[3] == ("len", rest) else None
+    gstep = False
+    if R is not None:
+        raw_w = G.strip(writes[0][2])
+        raw_R = raw_w[2]
+        try:
+            lf = G.lin(raw_R)
+            size_atoms = [a for a in lf.m if isinstance(a, tuple) and a[0] == "fld" and N(a) == size_n]
+            atoms2 = [a for a in lf.m if isinstance(a, tuple) and a[0] == "rem"]
+            if len(size_atoms) == 1:
+                X = ("zext", size_atoms[0], "u32", "usize")
+                want = G.lin(("bin", "Add", X, ("c", 7), "usize")).add(G.Lin(0, {("rem", G.canon(("bin", "Add", X, ("c", 7), "usize")), 8): 1}), -1)
+                gstep = lf.key() == want.key()
+        except Exception:
+            gstep = False
+    ctx.check(gstep, rule_prefix + "2", label + ":step",
+              "the rest shrinks by round8(size_of Header + payload_len) = (size + 7) - ((size + 7) mod 8), size being the u32 at header offset %d: new offset = round8(offset + size)" % size_off,
+              A.site(writes[0][0]), how="rest = rest.split_at(R).1 with R in linear/remainder normal form", why="stored value %s" % G.show(writes[0][2])[:300])
+    g3 = False
+    why3 = ""
+    if somes and R is not None:
+        pl = N(somes[0].payload)
+        why3 = G.show(somes[0].payload)[:300]
+        rfs_key = "multiboot2_common::DynSizedStructure::<%s>::ref_from_slice" % hty
+        rfs_call = None
+        if pl[0] == "unwrap" and pl[1][0] == "call" and pl[1][1] == rfs_key:
+            rfs_call = pl[1]
+        elif pl[0] == "fld" and pl[2] == 0 and pl[1][0] == "dc" and pl[1][2] == 0 and pl[1][1][0] == "call" and pl[1][1][1] == rfs_key and \
+                CH.guarded_by_variant(somes[0].facts, pl[1][1], 0):
+            rfs_call = pl[1][1]
+        if rfs_call is not None:
+            sl = rfs_call[2][0]
+            g3 = sl == ("sub", rest, ("c", 0), R)
+    ctx.check(g3, rule_prefix + "3", label + ":item", "the yielded item is ref_from_slice(&buffer[offset .. new offset]).unwrap(): the first R bytes of the rest (bounds-checked split)", A.site(),
+              how="Some(ref_from_slice(rest.split_at(R).0).unwrap())", why=why3)
+    return A
+
+
+def _sub(t, acc=None):
+    acc = acc if acc is not None else []
+    if isinstance(t, tuple):
+        acc.append(t)
+        for x in t:
+            if isinstance(x, tuple):
+                _sub(x, acc)
+    return acc
+
+
 def check_next(ctx, F, hty, size_off, label, rule_prefix="T"):
     inst = next_inst(F, hty)
     if inst is None:
@@ -33,6 +135,8 @@ def check_next(ctx, F, hty, size_off, label, rule_prefix="T"):
     if not it:
         return ctx.fail("ANCHOR", "TagIter<%s>" % label, "layout available", "", "missing")
     itf = {f["name"]: f["i"] for f in it[0]["fields"]}
+    if "next_tag_offset" not in itf or "buffer" not in itf:
+        return check_next_cursor(ctx, F, hty, size_off, label, rule_prefix, inst, it[0])
     selfv = deref(arg(1))
     off = fld(selfv, itf["next_tag_offset"])
     buf = fld(selfv, itf["buffer"])
@@ -152,8 +256,7 @@ def run(ctx):
         n = N(rt) if rt is not None else None
         inner = fld(deref(arg(1)), 0)
         payload = ("ref", fld(deref(inner), 1))
-        g = n is not None and n[0] == "aggr" and n[1][0] == "adt" and n[1][1] == "multiboot2_common::iter::TagIter" and \
-            dict(zip(n[1][3], n[2])).get("next_tag_offset") == ("c", 0) and dict(zip(n[1][3], n[2])).get("buffer") == payload
+        g = n is not None and tagiter_fresh(n, payload)
         ctx.check(g, "T1", "tags", "tags() = TagIter{offset 0, buffer = the loaded structure's payload field} (inherent payload(): the declared region after the header)",
                   A.site(), how=G.show(rt)[:200], why=G.show(rt)[:300])
         ds = F.adts.get("multiboot2_common::DynSizedStructure<multiboot2::boot_information::BootInformationHeader>")
